@@ -16,6 +16,7 @@ from . import _nsutil as nu
 ID = "C10"
 TITLE = "Namespace reading is complete, ordered and deterministic"
 RULE = (
+    "(Part files-same-name: several directories of one name contribute to a root namespace; roots designated by bare name, by paths, mixed, or targets in the documented relative form <root>/<ns>/File found under the parent of a root.  Spellings include <link to the directory>/../<name>; directory sets include siblings whose names merely start like another directory's: ns-backup, ns (copy).)  "
     "Cases are workspaces on disk (1..3 root namespace directories, nesting depth 0..2, <= 8 definitions, several versions of a name, "
     "legacy .uavcan files, non-definition files, acyclic references incl. cross-root) x a way of calling the API: read_namespace(root, "
     "lookups) with every directory argument spelled in a drawn way (absolute str / Path, relative to cwd, ./-prefixed, with a .. segment, "
